@@ -422,7 +422,7 @@ class PyModel:
                     new_bases.append(base)
                 node.bases = new_bases
             body.append(node)
-        tree.body = body
+        tree.body = self._bases_first(body)
         ast.fix_missing_locations(tree)
         code = compile(
             tree,
@@ -447,6 +447,43 @@ class PyModel:
             fn.func = ns.get(name)
         for name, const in self.constants.items():
             const.value = ns.get(name)
+
+    @staticmethod
+    def _bases_first(body: List[ast.stmt]) -> List[ast.stmt]:
+        """
+        Move class definitions behind their bases (stable otherwise).
+
+        The front end resolves base classes by name, so a meta-model may name a base
+        that is defined further down; Python itself needs the bases first.
+        """
+        classes = {n.name: n for n in body if isinstance(n, ast.ClassDef)}
+        placed: List[ast.stmt] = []
+        done: set = set()
+
+        def place(node: ast.ClassDef, stack: Tuple[str, ...] = ()) -> None:
+            if node.name in done or node.name in stack:
+                return
+            for base in node.bases:
+                if isinstance(base, ast.Name) and base.id in classes:
+                    place(classes[base.id], stack + (node.name,))
+            done.add(node.name)
+            placed.append(node)
+
+        def is_enum(node: ast.stmt) -> bool:
+            return isinstance(node, ast.ClassDef) and any(
+                isinstance(b, ast.Name) and b.id == "Enum" for b in node.bases
+            )
+
+        # enumerations first: constants defined at module level may refer to them
+        for node in body:
+            if is_enum(node):
+                place(node)
+        for node in body:
+            if isinstance(node, ast.ClassDef):
+                place(node)
+            else:
+                placed.append(node)
+        return placed
 
     def _shim_namespace(self) -> Dict[str, Any]:
         invariants: Dict[str, List[Tuple[Any, Any]]] = {}
